@@ -8,14 +8,6 @@ From Coq Require Import ZifyBool ZifyNat ZifyN.
 Ltac Zify.zify_post_hook ::= Z.div_mod_to_equations.
 Open Scope N_scope.
 
-Definition wf_parent (p : option N) : Prop := match p with None => True | Some i => i < 2 ^ 32 end.
-Definition wf_leaf (l : leaf) : Prop :=
-  length (l_hash l) = HASH_BYTES /\ wf_parent (l_parent l) /\ l_key l < 2 ^ 64 /\ l_value l < 2 ^ 64.
-Definition wf_inode (n : inode) : Prop :=
-  length (i_hash n) = HASH_BYTES /\ wf_parent (i_parent n) /\ i_left n < 2 ^ 32 /\ i_right n < 2 ^ 32.
-Definition wf_node (n : node) : Prop := match n with NLeaf l => wf_leaf l | NInt i => wf_inode i end.
-Definition wf_block (b : block) : Prop := wf_node (b_node b).
-
 (* the translated layout is the one the decoder is written for *)
 Lemma layout_pinned :
   metadata_layout = [F_node_type; F_dirty] /\
